@@ -362,3 +362,29 @@ extern "C" int h_resub() {
   __vp_reached("resub.end");
   return 0;
 }
+
+// C17: the frame-count limit through the API: one indexed store at `idx` on the declared object gives idx+1 frames; the object is
+// saved and, if saving returns, reloaded: counts and POINT:FRAMES of the reloaded object must equal those in memory.
+extern "C" int h_far_save() {
+  ezc3d::c3d* c = start_state(1);
+  const size_t idx = (size_t)__vp_cfg("idx");
+  Dev d; Frame f = make_frame(*c, d);
+  c->frame(f, idx);
+  __vp_tag("mem");
+  __vp_obs_u64("hdr.nbFrames", c->header().nbFrames()); __vp_obs_u64("dat.nbFrames", c->data().nbFrames());
+  __vp_obs_u64("POINT:FRAMES", (unsigned long)(long)c->parameters().group("POINT").parameter("FRAMES").valuesAsInt()[0]);
+  int wrote = 0, loaded = 0;
+  try { c->write("far.c3d"); wrote = 1; } catch (std::exception&) { wrote = 0; }
+  if (wrote) {
+    try {
+      ezc3d::c3d r("far.c3d"); loaded = 1;
+      __vp_tag("file");
+      __vp_obs_u64("hdr.nbFrames", r.header().nbFrames()); __vp_obs_u64("dat.nbFrames", r.data().nbFrames());
+      __vp_obs_u64("POINT:FRAMES", (unsigned long)(long)r.parameters().group("POINT").parameter("FRAMES").valuesAsInt()[0]);
+    } catch (std::exception&) { loaded = 0; }
+  }
+  __vp_tag("outcome"); __vp_obs_u64("wrote", wrote); __vp_obs_u64("loaded", loaded);
+  delete c;
+  __vp_reached("farsave.end");
+  return 0;
+}
